@@ -213,4 +213,38 @@ theorem strVal_root (d : XDoc) : strVal d [] = textDescL d.kids := by simp [strV
 theorem textDesc_skips_comment_pi (s t u : Str) : textDesc (.comment s) = [] ∧ textDesc (.pi t u) = [] := by
   simp [textDesc]
 
+/-! ### relations between axes (added 2026-09-23) -/
+/-- ancestor-or-self is ancestor plus the context node (for a context node of the document), as sets -/
+theorem mem_ancestor_or_self (d : XDoc) (c k : Key) (hc : c ∈ allKeys d) :
+    k ∈ axisKeys d .ancestorOrSelf c ↔ k ∈ axisKeys d .ancestor c ∨ k ∈ axisKeys d .self c := by
+  simp only [axisKeys, List.mem_filter, Bool.or_eq_true, Bool.and_eq_true, beq_iff_eq, List.mem_singleton]
+  constructor
+  · rintro ⟨h1, h2 | h2⟩
+    · exact Or.inl ⟨h1, h2⟩
+    · exact Or.inr h2
+  · rintro (⟨h1, h2⟩ | h)
+    · exact ⟨h1, Or.inl h2⟩
+    · subst h; exact ⟨hc, Or.inr rfl⟩
+
+/-- descendant-or-self is descendant plus the context node, as sets (context node of the tree proper) -/
+theorem mem_descendant_or_self (d : XDoc) (c k : Key) (hc : c ∈ allKeys d) (hcn : isAN c = false) :
+    k ∈ axisKeys d .descendantOrSelf c ↔ k ∈ axisKeys d .descendant c ∨ k ∈ axisKeys d .self c := by
+  simp only [axisKeys, hcn, Bool.false_eq_true, if_false, List.mem_filter, Bool.or_eq_true,
+    beq_iff_eq, List.mem_singleton, Bool.not_eq_true']
+  constructor
+  · rintro ⟨h1, h2 | h2⟩
+    · exact Or.inl ⟨h1, h2⟩
+    · exact Or.inr h2
+  · rintro (⟨h1, h2⟩ | h)
+    · exact ⟨h1, Or.inl h2⟩
+    · subst h; exact ⟨⟨hc, hcn⟩, Or.inr rfl⟩
+
+/-- from an attribute or namespace node descendant-or-self is the node itself, and it has no children, attributes,
+    namespace nodes, descendants or siblings -/
+theorem axes_of_attribute_node (d : XDoc) (c : Key) (hc : isAN c = true) :
+    axisKeys d .descendantOrSelf c = [c] ∧ axisKeys d .child c = [] ∧ axisKeys d .attribute c = [] ∧
+    axisKeys d .namespace c = [] ∧ axisKeys d .descendant c = [] ∧ axisKeys d .followingSibling c = [] ∧
+    axisKeys d .precedingSibling c = [] := by
+  simp [axisKeys, hc]
+
 end XmlRs.C05
